@@ -585,11 +585,23 @@ func checkFaceDepthLabels(c *Ctx) {
 			}
 		}
 	})
-	crossUsed := false
+	crossUsed, aboutRef := false, true
 	for _, g := range append([]*ssa.Function{uf}, allAnon(uf)...) {
-		if len(callsTo(g, "geom.(XY).Cross")) > 0 {
+		for _, call := range callsTo(g, "geom.(XY).Cross") {
 			crossUsed = true
+			// both operands are differences to a reference vertex: sums about the
+			// origin lose the area of a small geometry far from the origin
+			for _, a := range call.Common().Args {
+				sub, ok := stripLoad(a).(*ssa.Call)
+				if !ok || calleeName(sub) != "geom.(XY).Sub" {
+					aboutRef = false
+				}
+			}
 		}
+	}
+	if crossUsed && !aboutRef {
+		c.Bad(uf.Pos(), FuncName(uf), "counting starts at the unbounded face", "the signed areas are accumulated from absolute coordinates (shoelace about the origin): for a geometry that is small compared to the magnitude of its coordinates the area is lost to rounding, the wrong face is taken as unbounded, and the result depends on map iteration order")
+		return
 	}
 	c.Check(minSel && crossUsed, uf.Pos(), FuncName(uf), "counting starts at the unbounded face", "the face whose cycle has the smallest signed area (shoelace sum) is taken as covered by no member", "unboundedFace does not select the cycle of minimal signed area (shoelace sum with a `<` running minimum)")
 }
